@@ -45,25 +45,24 @@ impl Compile for Callable<'_> {
         let mut register_start = None;
         let mut register_count = 0;
 
-        let mut args_init: Vec<CompiledItem> = self
-            .function_arguments
-            .iter()
-            .flat_map(|x| {
-                let mut value_init = x.compile(state).unwrap();
+        let mut args_init: Vec<CompiledItem> = vec![];
 
-                let argument_register = unsafe { state.poll_temporary_register_ghost() };
+        for x in self.function_arguments.iter() {
+            // an argument that cannot be compiled is a compilation error, not a crash
+            let mut value_init = x.compile(state)?;
 
-                value_init.push(instruction!(store_fast argument_register));
+            let argument_register = unsafe { state.poll_temporary_register_ghost() };
 
-                if register_start.is_none() {
-                    register_start = Some(argument_register.id);
-                }
+            value_init.push(instruction!(store_fast argument_register));
 
-                register_count += 1;
+            if register_start.is_none() {
+                register_start = Some(argument_register.id);
+            }
 
-                value_init
-            })
-            .collect();
+            register_count += 1;
+
+            args_init.append(&mut value_init);
+        }
 
         #[cfg(feature = "debug")]
         {
